@@ -32,6 +32,8 @@ type c19Cfg struct {
 	// Parked: the processor takes one pre-filled row and is then held inside the synchronous sink until every
 	// producer has returned, so it touches no channel while the producers fill, expand and migrate
 	Parked bool `json:"processor_parked,omitempty"`
+	// Empty: the first row of every producer is a row without any column (an empty map; a nil map for producer 1)
+	Empty bool `json:"field_less_rows,omitempty"`
 }
 
 func (c c19Cfg) name() string {
@@ -44,6 +46,9 @@ func (c c19Cfg) name() string {
 	}
 	if c.Parked {
 		n += "-parked"
+	}
+	if c.Empty {
+		n += "-emptyrows"
 	}
 	return n
 }
@@ -71,6 +76,14 @@ func c19Configs(tier string) []c19Cfg {
 		c19Cfg{Producers: 2, Rows: 2, Buf: 1, Strategy: "expand", Ceiling: 4, Growth: 2, Inc: 2},
 		c19Cfg{Producers: 1, Rows: 2, Buf: 2, Strategy: "expand", Ceiling: 8, Growth: 2, Inc: 1, Prefill: 2, Threshold: 0.5},
 		c19Cfg{Producers: 2, Rows: 2, Buf: 2, Strategy: "expand", Ceiling: 3, Growth: 1.1, Inc: 1})
+	// rows without any column are rows: processed or counted like every other
+	for _, st := range []string{"drop", "block", "expand"} {
+		c := c19Cfg{Producers: 2, Rows: 2, Buf: 2, Strategy: st, Empty: true}
+		if st == "expand" {
+			c.Ceiling = 3
+		}
+		out = append(out, c)
+	}
 	// the processor parked in the sink: whatever the producers do to the channel among themselves, every producer's
 	// rows come out in emission order afterwards (the known hand-over finding needs the processor to receive
 	// during a migration and cannot occur here)
@@ -80,6 +93,7 @@ func c19Configs(tier string) []c19Cfg {
 }
 
 type c19Obs struct {
+	empties   int // field-less rows seen by the sink
 	processed []int
 	dropped   int64
 	input     int64
@@ -119,6 +133,10 @@ func c19Run(cfg c19Cfg) explore.RunFunc {
 			gateOpen := false
 			ssql.AddSyncSink(func(rows []map[string]any) {
 				for _, r := range rows {
+					if r["id"] == nil && cfg.Empty {
+						o.empties++
+						continue
+					}
 					o.processed = append(o.processed, toInt(r["id"]))
 				}
 				if cfg.Parked && !gateOpen {
@@ -138,7 +156,14 @@ func c19Run(cfg c19Cfg) explore.RunFunc {
 				sched.Go(func() {
 					defer wg.Done()
 					for j := 0; j < cfg.Rows; j++ {
-						ssql.Emit(map[string]any{"id": p*100 + j})
+						switch {
+						case cfg.Empty && j == 0 && p == 1:
+							ssql.Emit(nil)
+						case cfg.Empty && j == 0:
+							ssql.Emit(map[string]any{})
+						default:
+							ssql.Emit(map[string]any{"id": p*100 + j})
+						}
 					}
 				})
 			}
@@ -195,9 +220,9 @@ func c19Oracle(cfg c19Cfg, res *sched.Result, o *c19Obs) *explore.Failure {
 		}
 		seen[id] = true
 	}
-	if int64(len(o.processed))+o.dropped != int64(total) {
-		if int64(len(o.processed))+o.dropped < int64(total) {
-			return fail("lost-row", fmt.Sprintf("%d rows neither processed nor counted as dropped", int64(total)-int64(len(o.processed))-o.dropped))
+	if int64(len(o.processed)+o.empties)+o.dropped != int64(total) {
+		if int64(len(o.processed)+o.empties)+o.dropped < int64(total) {
+			return fail("lost-row", fmt.Sprintf("%d rows neither processed nor counted as dropped", int64(total)-int64(len(o.processed)+o.empties)-o.dropped))
 		}
 		return fail("overcount", "processed+dropped exceeds the number of Emit calls")
 	}
